@@ -56,12 +56,12 @@ PROPS = {
     "C03": {"targets": [LANM + "_Packet.decode", LANM + "_Packet.decode#truncated", LANM + "_Packet.decode#interop",
                         LANM + "_Packet.decode#signature_tamper", LANM + "_Packet.decode#marker_tamper"],
             "level": "proof"},
-    "C04": {"targets": [V3 + ".data_received", V3 + ".read"], "level": "proof"},
+    "C04": {"targets": [V3 + ".__init__", V3 + ".data_received", V3 + ".read"], "level": "proof"},
     "C05": {"targets": [V3 + "._encode_encrypted_request", V3 + "._decode_encrypted_response", V3 + "._process_packet",
                         V3 + "._process_packet#interop", V3 + ".write"], "level": "proof"},
     "C06": {"targets": [V3 + "._process_packet", V3 + ".read", V3 + "._encode_handshake_request", V3 + "._get_local_key", V3 + "._get_local_key#genuine", V3 + ".authenticate",
                         LANM + "_LanProtocol._flush", V3 + ".write", LANC + ".authenticate", DEVB + ".authenticate"], "level": "proof"},
-    "C07": {"targets": [V3 + ".write", LANM + "_LanProtocol.write", V3 + ".authenticate", V3 + ".authenticated", LANM + "_LanProtocol.alive",
+    "C07": {"targets": [V3 + ".__init__", LANM + "_LanProtocol.__init__", V3 + ".write", LANM + "_LanProtocol.write", V3 + ".authenticate", V3 + ".authenticated", LANM + "_LanProtocol.alive",
                         LANC + "._alive", LANC + "._connect", LANC + "._disconnect", LANC + ".authenticate", LANC + ".send"], "level": "proof"},
     "C08": {"targets": [LANC + ".send", LANC + ".authenticate", LANC + "._connect", LANC + "._disconnect", LANC + "._read",
                         LANC + "._read_available", DEVB + "._send_command#transport", "msmart.device.AC.device.AirConditioner.refresh#no_valid_response"],
